@@ -209,6 +209,14 @@ def r2(ctx: Ctx) -> None:
         if w.func not in funcs:
             funcs.append(w.func)
     ctx.require(len(funcs) >= 3, "fewer than 3 functions mutate OrderBook.priority_queue")
+    # the discipline decided here is that of a binary heap kept with heapq; a queue kept in another way
+    # (a sorted list, a key function) is a different data structure with a different invariant
+    heap_ops = [w for w in ws if w.kind == "heap"]
+    sorted_ops = [w for w in ws if w.kind == "mutcall" and w.detail in ("sort", "insert")]
+    if not heap_ops or sorted_ops:
+        g0 = (sorted_ops or ws)[0]
+        ctx.unrec(g0.func, g0.node, "the priority queue is kept as a binary heap with heapq", "the queue is (also) maintained by sort() / insert() or without heapq: whether that order agrees with the comparison of orders is not decided")
+        return
     for f in funcs:
         paths = ctx.paths(f.qualname)
         problems: List[Dict[str, Any]] = []
@@ -346,6 +354,7 @@ def r5(ctx: Ctx) -> None:
         st = [e for p in ps for e in p.walk_events(True) if e.kind in ("store", "del") or (e.kind == "call" and not e.pure and not e.noise)]
         rets = []
         ok = not st
+        derived = False
         for p in ps:
             if p.exit[0] != "return":
                 ok = False
@@ -355,6 +364,11 @@ def r5(ctx: Ctx) -> None:
             want0 = "self.priority_queue[0]" + (".price" if q.endswith("price") else "")
             if key(t) not in (want0, "None"):
                 ok = False
+                if key(t).startswith("self.priority_queue[0]"):
+                    derived = True  # a part of element 0 (the queue holds entries built around the orders)
+        if not ok and not st and derived:
+            ctx.unrec(f, f.node, f"{q} is a pure view of priority_queue[0]", "the view returns a part of element 0: the queue no longer holds the orders themselves, how an entry relates to its order is not decided", f"returns {sorted(set(rets))}")
+            continue
         ctx.check(ok, f, f.node, f"{q} is a pure view of priority_queue[0]", "return priority_queue[0](.price) or None; no stores", f"returns {sorted(set(rets))}; effects={len(st)}")
 
 
